@@ -288,6 +288,7 @@ class Analysis:
         self.stats = {"mem_operands": 0, "branches": 0, "calls": 0, "insns": len(func.insns),
                       "rets": 0, "max_frame": 0, "misaligned_calls": 0}
         self.round_constants = {}   # label -> immediate xored first after the label
+        self.written_args = set()   # argument indices stored through
 
     def finding(self, rule, ins, what):
         self.findings.append(Finding(rule, self.f.name, ins.line, what))
@@ -397,6 +398,8 @@ class Analysis:
             return v
         if b.kind == "arg":
             p = self.proto[b.a]
+            if write:
+                self.written_args.add(b.a)
             if b.b is None:
                 # offset lost at a loop join: only allowed for byte buffers
                 if p["size"] is not None:
@@ -417,6 +420,8 @@ class Analysis:
                 self.finding("footprint", ins, "access %s touches bytes [%d,%d) of argument %d (%s), which is %s" % (
                     o.text, off, off + width, b.a, p["name"],
                     ("%d bytes long" % p["size"]) if p["size"] is not None else "a buffer"))
+            if write:
+                self.written_args.add(b.a)
             if write and p.get("const"):
                 self.finding("footprint", ins, "store %s through const argument %d (%s)" % (o.text, b.a, p["name"]))
             return data(p["secret"])
